@@ -810,7 +810,8 @@ class Merger:
         return merge_performed
 
     def _insert_scalar(
-        self, insert_at: YAMLPath, lhs: Any, lhs_proc: Processor, rhs: Any
+        self, insert_at: YAMLPath, lhs: Any, lhs_proc: Processor, rhs: Any,
+        node_coord: Union[NodeCoords, None] = None
     ) -> bool:
         """Insert an RHS scalar into the LHS document."""
         merge_performed = False
@@ -848,6 +849,13 @@ class Merger:
         elif insert_at.is_root:
             # A Scalar document; the RHS Scalar overrides it
             self.data = rhs
+            merge_performed = True
+        elif (node_coord is not None
+            and isinstance(node_coord.parent, (dict, list))
+        ):
+            # Change only this target; the merge path may match other nodes
+            # which are merged in their own turn
+            node_coord.parent[node_coord.parentref] = rhs
             merge_performed = True
         else:
             lhs_proc.set_value(insert_at, rhs)
@@ -940,7 +948,7 @@ class Merger:
             else:
                 # The RHS document root is a Scalar value
                 merge_performed = self._insert_scalar(
-                    insert_at, target_node, lhs_proc, rhs)
+                    insert_at, target_node, lhs_proc, rhs, node_coord)
 
         self.logger.debug(
             "Completed merge operation, resulting in document:",
